@@ -6,8 +6,9 @@ CONSTANTS
   Defaults <- ParseOrRe
   RegTypes <- GivenWhenStep
   SingleTypes <- GivenStep
-  BfsRegs = 2
-  SimRegs = 5
+  FullRegs = 2
+  MaxRegs = 5
+  SampleMod <- ModThorough
   BigLen = 3
 INVARIANT NoAmbiguousPair
 INVARIANT LookupFirstHit
